@@ -15,7 +15,7 @@ import itertools
 import sympy as sp
 
 from bsa import guards, nalg, sym, vecint
-from bsa.hir import Missing, callee, peel, place, pp, walk
+from bsa.hir import Missing, callee, pat_binds, peel, place, pp, walk
 from rules import fdjac
 from rules import polyint as PI
 
@@ -132,9 +132,34 @@ def run(F, run, tier):
     check_lm_guards(F, run)
     fdjac.analyse(F, run, "C17", "R17.3", "optimize")
     check_jac_analytic(F, run)
+    from rules import lm
+    for path in ("optimize::curve_fit", "optimize::curve_fit_jac"):
+        try:
+            lm.check(F, run, path, None)
+        except Missing as e:
+            run.broken("R17.4", path, "anchor", "src/optimize/mod.rs", str(e))
+    lm.check_coverage(F, run, "R17.3", "optimize::jac_finite_differences", "lm-fd")
+    lm.check_coverage(F, run, "R17.3", "optimize::jac_analytic", "lm-analytic")
+    # observation: the start-up helpers advance a by-value copy of the parameters while they update evaluation / jac through references
+    for path in ("optimize::initial_residuals", "optimize::initial_residuals_exact"):
+        try:
+            hb = F.fn(path)
+        except Missing:
+            continue
+        for prm, ty in zip(hb.get("params", []), hb.get("inputs", [])):
+            names = [nm for _, nm in pat_binds(prm)]
+            if names == ["params"] and not ty.startswith("&"):
+                writes = [n for n in walk(hb["body"]) if n.get("k") in ("Assign", "AssignOp") and peel(n["l"]).get("k") == "Local" and peel(n["l"])["name"] == "params"]
+                if writes:
+                    run.observe("R17.4", F.loc(hb), "%s advances a by-value copy of `params` (%d write(s)) while `evaluation`, `jac` and `damping` are returned/updated: "
+                                "the caller's first iteration adds a step computed at the advanced point to the initial parameters (costs an iteration; later iterations are consistent)"
+                                % (path.split("::")[-1], len(writes)))
     run.assumptions += ["exact arithmetic for the linear fit", "termination and convergence of Levenberg–Marquardt (no iteration cap exists) are numerical: not decided",
-                        "the damped normal-equation assembly of the LM iteration is not modelled"]
+                        "one LM iteration is evaluated at the shape m = 3 data points, V = 2 parameters; model, Jacobian providers and linear solves uninterpreted; a failed solve_mut is assumed to leave its right-hand side untouched"]
     expl = ("The linear fit is evaluated abstractly on symbolic data and the normal equations are established as identities (plus reproduction of linear data, order "
             "independence and the length guard); for Levenberg–Marquardt the guard prefix of both drivers is explored path-sensitively and the two Jacobian providers are "
-            "checked (stencil moments, storage position, restoration). Whether the LM iteration terminates and converges is not decided.")
+            "checked (stencil moments, storage position, restoration); one iteration of each driver is evaluated with symbolic matrices: damped normal equations "
+            "(JᵀJ with the diagonal scaled by 1+damping resp. 1+damping/mult, right-hand side Jᵀ(y − f)), p' = p + step, the trial with the smaller residual is kept, damping is "
+            "divided only then, evaluation/sum_sq/Jacobian/transpose are refreshed consistently at p', unsolvable systems give Err. Whether the LM iteration terminates and "
+            "converges is not decided.")
     return "other", expl, None
